@@ -229,6 +229,31 @@ pub fn dec_case(bytes: &[u8]) -> SerOutcome {
         Ok((Err(e), _)) => format!("err:{}", dec_class(&e)),
         Ok((Ok(rel), rest)) => {
             let prog = rel.verif_instructions();
+            // A relation obtained from bytes is a loaded relation: the arity check of
+            // `from_instructions` is what keeps the interpreters from indexing out of range
+            // (`inps[0]`, `inps[1]`), so the reader must not return a program the loader rejects,
+            // and evaluating what it returned must give an error value, never a panic.
+            match catch(|| ZkirRelation::from_instructions(&prog).map(|_| ())) {
+                Ok(Ok(())) => {}
+                Ok(Err(e)) => fails.push((
+                    "C18:read_relation-accepts-a-program-that-from_instructions-rejects".to_string(),
+                    "ZkirRelation::read_relation returns a relation whose program ZkirRelation::from_instructions rejects (ill-formed program accepted by the binary reader)".to_string(),
+                    detail(json!(format!("{e:?}").chars().take(120).collect::<String>())),
+                )),
+                Err(pm) => fails.push(("C18:from_instructions-panics-on-decoded-program".to_string(), "ZkirRelation::from_instructions panics on a program returned by read_relation".to_string(), detail(json!(pm)))),
+            }
+            // (only for a program the loader rejects, and never with a byte length that would make
+            // the interpreter allocate gigabytes)
+            let small = prog.iter().all(|i| !matches!(i.operation, midnight_zkir::Operation::IntoBytes(n) if n > 1 << 16));
+            let rejected = fails.iter().any(|f| f.0 == "C18:read_relation-accepts-a-program-that-from_instructions-rejects");
+            if !(small && rejected) {
+            } else if let Err(pm) = catch(|| rel.verif_eval_offcircuit(std::collections::HashMap::new()).map(|_| ())) {
+                fails.push((
+                    "C18:relation-read-from-bytes-panics-when-evaluated".to_string(),
+                    "off-circuit evaluation of a relation returned by read_relation panics (an ill-formed program must be rejected with an error value)".to_string(),
+                    detail(json!(pm.chars().take(120).collect::<String>())),
+                ));
+            }
             let consumed = &bytes[..bytes.len() - rest];
             let mut again = vec![];
             let canon = match catch(|| rel.write_relation(&mut again)) {
